@@ -77,7 +77,15 @@ fn unescape(s: &str) -> String {
 fn comment_norm(t: &scan::Token, src: &str) -> (scan::Kind, String) {
     let s = t.text(src);
     match t.kind {
-        | scan::Kind::LineComment | scan::Kind::DocLine => (t.kind, s.trim_end().to_string()),
+        // the blanks between the marker and the text, and at the end of the line, are layout (the formatter writes
+        // `-- text`); everything else on the line, including non-ASCII white space, is content
+        | scan::Kind::LineComment | scan::Kind::DocLine => {
+            // (a carriage return before the line break belongs to the line terminator)
+            let body = s.trim_end_matches('\n').trim_end_matches('\r');
+            let marker = if t.kind == scan::Kind::DocLine { "--|" } else { "--" };
+            let text = body.strip_prefix(marker).unwrap_or(body);
+            (t.kind, text.trim_matches(|c| c == ' ' || c == '\t').to_string())
+        }
         // the formatter re-indents the continuation lines of a multi-line block comment: compare line by line
         // modulo surrounding whitespace
         | _ => (t.kind, s.lines().map(|l| l.trim()).collect::<Vec<_>>().join("\n")),
@@ -184,6 +192,26 @@ pub fn compare(input: &str, output: &str) -> Result<(), (String, String)> {
             format!("{} comments in, {} out; first difference at comment #{}: {:?} vs {:?}", ci.len(), co.len(), at, ci.get(at), co.get(at)),
         ));
     }
+    // (5) verbatim regions are copied unchanged: the source slice from the annotation to the end of its payload occurs
+    // byte for byte in the output (regions in source order, searched left to right)
+    if let Some(regions) = e2::verbatim_regions(input) {
+        let mut from = 0usize;
+        for (k, (start, end)) in regions.iter().enumerate() {
+            let slice = &input[*start..*end];
+            match output[from..].find(slice) {
+                | Some(at) => from += at + slice.len(),
+                | None => {
+                    // what became of it: the same tokens with other white space, or something else
+                    let squeeze = |s: &str| s.split_whitespace().collect::<Vec<_>>().join(" ");
+                    let kind = if squeeze(output).contains(&squeeze(slice)) { "white-space-changed" } else { "content-changed" };
+                    return Err((
+                        format!("verbatim-region-not-copied {}", kind),
+                        format!("verbatim region #{} (bytes {}..{}) {:?} does not occur unchanged in the output", k, start, end, slice),
+                    ));
+                }
+            }
+        }
+    }
     // (2) significant code tokens, in order
     let si = significant(&ti, input);
     let so = significant(&to, output);
@@ -272,7 +300,7 @@ fn run_format(cfg: &Cfg, index: u64, stats: &mut Stats) {
 
 fn sweep_seeds(cfg: &Cfg) -> u64 {
     let small = e2::corpus().iter().filter(|(_, t)| scan::scan(t).len() <= 150).count() as u64;
-    small + cfg.tier.pick(60, 1_500)
+    small + cfg.tier.pick(120, 3_000)
 }
 
 fn sweep_seed(cfg: &Cfg, n: u64) -> Option<String> {
@@ -281,7 +309,12 @@ fn sweep_seed(cfg: &Cfg, n: u64) -> Option<String> {
         return Some(small[n as usize].clone());
     }
     let mut rng = Rng::for_case(cfg.seed, "C13/sweepseed", n);
-    let text = e2::grammar::source(&mut rng, false);
+    // a third of the seeds are verbatim regions in context, a third carry format directives
+    let text = match n % 3 {
+        | 0 => fmtwork::verbatim_seed(&mut rng),
+        | 1 => e2::grammar::source(&mut rng, true),
+        | _ => e2::grammar::source(&mut rng, false),
+    };
     if scan::scan(&text).len() <= 150 && fmtwork::delimiter_nesting(&text) < fmtwork::COSTLY_NESTING { Some(text) } else { None }
 }
 
@@ -300,9 +333,15 @@ fn run_sweep(cfg: &Cfg, index: u64, stats: &mut Stats) {
             if cfg.tier == Tier::Quick && !rng.chance(1, 2) {
                 continue;
             }
-            let mut inserts = vec![(gap, mutate::comment_text(kind, 1))];
+            // one comment in five carries a hostile payload instead of the plain one
+            let hostile = rng.chance(1, 5);
+            let first = if hostile { e2::hostile::comment(&mut rng, 1) } else { mutate::comment_text(kind, 1) };
+            let mut inserts = vec![(gap, first)];
             if rng.chance(1, 4) {
                 inserts.push((rng.below(n + 1), mutate::comment_text(kinds[rng.below(4)], 2)));
+            }
+            if hostile {
+                stats.count("sweep_hostile_comments");
             }
             let input = mutate::with_gap_inserts(&seed, &tokens, &inserts);
             // a doc line changes meaning only where it attaches to @[doc]/@[literal]; the text must still survive
